@@ -11,7 +11,7 @@
    is either covered by the theorem or reported.  That the premise holds for all operands in
    general position is the geometric half and is not proved (C05_partial). *)
 From Coq Require Import List.
-From SV Require Import Spec.Spec Lemmas.Measure.
+From SV Require Import Spec.Spec Lemmas.Measure Lemmas.QuadCurved Lemmas.SplitCurved.
 Open Scope Q_scope.
 
 Theorem C05_complement : forall s s' a b, shape_lines s = true -> (a + b <= 14)%nat ->
@@ -26,6 +26,18 @@ Theorem C05_split_keeps_moments : forall j idx nodes j' ex ey, all_lines j = tru
   jordan_vertical j' ex ey == jordan_vertical j ex ey.
 Proof. exact split_moment. Qed.
 Print Assumptions C05_split_keeps_moments.
+(* ... and curved ones (degree <= 6; cubic boundaries: every integral with ex + ey <= 3, i.e. the
+   moments of order <= 2) -- with the unrepaired node count this failed on cubics (F29,
+   Props/C15.v C15_old_rule_refuted), which is what broke the identities for curved operands *)
+Theorem C05_split_keeps_moments_curved : forall j idx nodes j' ex ey,
+  (forall s, In s j -> (1 <= degree s <= 6)%nat /\ (vertical_nodes (degree s) ex ey <= 19)%nat) ->
+  Jordan.split j idx nodes = Ok j' -> jordan_vertical j' ex ey == jordan_vertical j ex ey.
+Proof. exact split_moment_curved. Qed.
+Theorem C05_split_keeps_moments_cubic : forall j idx nodes j' ex ey,
+  (forall s, In s j -> (1 <= degree s <= 3)%nat) -> (ex + ey <= 3)%nat ->
+  Jordan.split j idx nodes = Ok j' -> jordan_vertical j' ex ey == jordan_vertical j ex ey.
+Proof. exact split_moment_cubic. Qed.
+Print Assumptions C05_split_keeps_moments_curved.
 
 Theorem C05_operands_keep_moments : forall a b closed inside a' b' new,
   shape_lines a = true -> shape_lines b = true -> recombine a b closed inside = Ok (a', b', new) ->
